@@ -59,7 +59,7 @@ CLAIMS = {
         "text": "TLA+ contract of the cluster lock (ClusterMutexContract) and an implementation-shaped model of mutex.go over etcd's lock recipe (key per member lease generation, per-object local lock, time-outs, lease re-grant after a failed keep-alive with the session kept): TLC checks "
                 "Mutex, NoResidue, termination under fairness and refinement. TLA+ contract of admin-API mutations (atomic, gap-free versions, 409/400, refusals modify nothing); a per-etcd-operation model "
                 "refines it under the lock (not without it, nor with a prefix delete over nested object names sv < svc < svc-canary, which generator, trace and harness use). TLC-generated request histories are replayed on real api.Servers of two members on an embedded etcd; recorded concurrent Lock/Unlock histories "
-                "(2-3 members plus a member whose lease keep-alive is made to fail while it holds the lock, handles obtained per call, injected etcd latency, time-outs) and concurrent admin-API histories are validated by TLC as linearisable with the versions pinned. Model parameters LocalWaitTimeout and EvictOnUnlock both refute Mutex; recorded scenarios include same-member time-outs and kept vs per-call handles on one member.",
+                "(2-3 members plus a member whose lease keep-alive is made to fail while it holds the lock, handles obtained per call, injected etcd latency, time-outs) and concurrent admin-API histories are validated by TLC as linearisable with the versions pinned. Model parameters LocalWaitTimeout and EvictOnUnlock both refute Mutex; recorded scenarios include same-member time-outs and kept vs per-call handles on one member. HoldWatchdog (a hold-time watchdog releasing the mutex under a slow holder) refutes Mutex and SkipSamePut (an identical put skipped together with its version bump) refutes the refinement; recorded mutex scenarios include critical sections of 0.5 to 10 times the request time-out, configured per member (1 s, 2 s, the default 10 s in the thorough tier) or set on the handle, with waiters of the same and of other members; generated and concurrent admin histories re-send accepted content (the same PUT twice, an update equal to the created spec).",
         "note": "etcd's lock recipe and leases trusted; lease expiry/revocation while holding not reproduced; failed keep-alive (re-grant) reproduced; mock supervisor with two test kinds; 5xx replies admitted as no-ops",
         "technique": "TLA+ spec + TLC model checking (refinement, liveness); model-based tests (TLC -simulate) on real servers; TLC trace validation (linearisation search)",
     },
@@ -128,8 +128,8 @@ CLAIMS = {
                 "snapshot, independent of panics) model-checked with every clause as invariant/action property; an implementation-shaped model of ObjectRegistry.applyConfig, watcher events and both handlers "
                 "(LifecycleImpl) is checked to refine it; all canonical TLC-generated snapshot sequences (<= 2 snapshots x 3 names exhaustively, sampled length 3, scripted panics) are replayed on a real "
                 "Supervisor / RawConfigTrafficController / TrafficController fed through the mocked syncer and compared per step; seeded bursty 20-40-snapshot histories with panicking callbacks - bursts of 1-3 snapshots and bursts of 14-32 snapshots pushed while the watchers' handlers are held back by gated/slow callbacks (more outstanding events than the watcher channel buffers) - are validated "
-                "by TLC against the contract; the implementation model includes the bounded watcher channel (blocking send refines, dropping send rejected). Histories whose first 5-8 snapshots arrive while the supervisor is being created are validated against the contract's start-up clause (each group begins from the then-latest snapshot, then every snapshot counts); the implementation model has watcher registration as its own action (atomic registration refines, copy-then-register-later rejected).",
-        "note": "callbacks observed through test-only kinds (spec equality = ver); the syncer itself is C19; order Close(old)/Init(new) of a kind change left free; the real Pipeline kind's separate store only modelled",
+                "by TLC against the contract; the implementation model includes the bounded watcher channel (blocking send refines, dropping send rejected). Histories whose first 5-8 snapshots arrive while the supervisor is being created are validated against the contract's start-up clause (each group begins from the then-latest snapshot, then every snapshot counts); the implementation model has watcher registration as its own action (atomic registration refines, copy-then-register-later rejected). The empty configuration is a first-class snapshot: delivered to the registry as a map without entries (no harness sentinel objects); the families s1 {} s3 (thorough: s1 s2 {} s4, s1 {} s3 {} s5) are replayed exhaustively, the empty step compared at the next barrier, one snapshot in eight of every recorded history is empty; LifecycleImpl rejects a registry that ignores it (SkipEmpty). The TrafficController's Apply path (ApplyTrafficGate / ApplyPipeline, Delete*, Clean) is modelled in LifecycleApply.tla (refines the contract; an Apply that does not store on the inherit branch is rejected) and decided on a bare TrafficController: all 4-snapshot sequences of one name over gate / pipeline x 3 versions (thorough: plus all canonical 3-snapshot sequences over 2 names), sampled 6-8-step 3-name sequences with panics, and 30-200 random 30-40-snapshot histories validated by TLC.",
+        "note": "callbacks observed through test-only kinds (spec equality = ver); the syncer itself is C19; order Close(old)/Init(new) of a kind change left free; the real Pipeline kind's separate store only modelled; on the Apply path the harness plays the owner (any order of Apply / Delete / Clean, re-apply of unchanged specs), a change of kind inside one category is not generated there",
         "technique": "TLA+ spec + TLC model checking (refinement); exhaustive model-based test generation (tlc -dump/-simulate) replayed on real code; TLC trace validation",
     },
     "C02": {
@@ -149,7 +149,7 @@ CLAIMS = {
                 "drives accepted ones through the real object's life-cycle under recover(), logging every call; TLC validates every recorded life-cycle against the automaton with "
                 "NoPanicAfterAccept and RuleRejected evaluated on each observed state; violations are minimised to kind + field classes + call + top repository frame.",
         "note": "one concrete value per class; requests = 26 HTTP classes incl. 12 paths derived from the configured paths (bare / trailing slash / extra segments / case / percent-encoded / no boundary) and 4 signature-bearing requests, 18 real-socket classes for HTTPServer, 6 resilience scenarios incl. open -> half-open -> closed -> open; TLC reports (kind, class) coverage and the run is inconclusive if a listed class was not sent; mocked cluster, local backends; KafkaMQTT/Kafka/RemoteFilter/CertExtractor validate-only; "
-                "WasmHost, MQTT-session filters, registries, ACME, mesh, tracing, HTTP/3 out of scope; 'does not panic' is observed (recover / process crash attributed to the call in flight), not predicted; request classes include requests whose context ends while they are served and a client aborting mid-body; enum-like string fields carry the value class \"valid value in another letter case\"",
+                "WasmHost, MQTT-session filters, registries, ACME, mesh, tracing, HTTP/3 out of scope; 'does not panic' is observed (recover / process crash attributed to the call in flight), not predicted; request classes include requests whose context ends while they are served and a client aborting mid-body; enum-like string fields carry the value class \"valid value in another letter case\"; every string validated by a pkg/v format (duration, regexp, httpmethod, urlname, base64, url, uri, ipcidr - found by walking the rendered spec along the repository's spec types) carries the value class 'valid value with one leading / trailing blank' (grammar field pad); the run is inconclusive if the grammar's carrier table and the repository's format tags disagree at kind level",
         "technique": "TLA+ spec + TLC model checking; TLC as combinatorial generator (-dump / -simulate) of configurations driven on the real code; TLC trace validation of recorded life-cycles",
     },
     "C03": {
